@@ -140,27 +140,38 @@ SIM_NOTSAN void sched_task_start(int id) {
   Sched* s = g_sched; if (!s) return;
   spin_until_turn(s, id);
 }
+// private generator for the scheduler: same algorithm as Rng, but with no call into instrumented code
+SIM_NOTSAN static inline uint64_t srotl(uint64_t x, int k) { return (x << k) | (x >> (64 - k)); }
+SIM_NOTSAN static uint64_t snext(Sched* sc) {
+  uint64_t* s = sc->rng.s;
+  uint64_t r = srotl(s[1] * 5, 7) * 9, t = s[1] << 17;
+  s[2] ^= s[0]; s[3] ^= s[1]; s[1] ^= s[2]; s[0] ^= s[3]; s[2] ^= t; s[3] = srotl(s[3], 45);
+  return r;
+}
+SIM_NOTSAN static bool schance(Sched* sc, double p) { return (snext(sc) >> 11) * (1.0 / 9007199254740992.0) < p; }
+SIM_NOTSAN static void strace(Sched* sc, int v) { if (sc->ntrace < Sched::TRACE_MAX) sc->trace[sc->ntrace++] = v; }
 SIM_NOTSAN static int pick_next(Sched* s, int me, bool me_alive) {
   int alive = s->alive_mask;
   if (!me_alive) alive &= ~(1 << me);
   if (!alive) return -1;
   int choice;
-  if (s->replay && s->replay_pos < s->replay->size()) {
-    choice = (*s->replay)[s->replay_pos++];
+  if (s->replay && s->replay_pos < s->replay_len) {
+    choice = s->replay[s->replay_pos++];
+    if (choice < 0) choice = -1 - choice;
     if (choice < 0 || choice >= s->ntasks || !(alive & (1 << choice))) {
       // replayed plan was shrunk: fall back to first alive task at or after 'choice'
       choice = -1;
       for (int i = 0; i < s->ntasks; i++) { int c = (me + i) % s->ntasks; if (alive & (1 << c)) { choice = c; break; } }
     }
-  } else if (me_alive && s->rng.chance(s->stickiness)) {
+  } else if (me_alive && schance(s, s->stickiness)) {
     choice = me;
   } else {
     int cnt = __builtin_popcount(alive);
-    int k = (int)s->rng.below((uint64_t)cnt);
+    int k = (int)(snext(s) % (uint64_t)cnt);
     choice = -1;
     for (int i = 0; i < s->ntasks; i++) if (alive & (1 << i)) { if (k-- == 0) { choice = i; break; } }
   }
-  s->trace.push_back(choice);
+  strace(s, choice);
   return choice;
 }
 SIM_NOTSAN void sched_task_exit(int id) {
@@ -181,9 +192,10 @@ SIM_NOTSAN void sched_force_switch(int id) {
   int alive = s->alive_mask & ~(1 << id);
   if (!alive) return;
   int cnt = __builtin_popcount(alive);
-  int k = (int)s->rng.below((uint64_t)cnt), choice = -1;
-  for (int i = 0; i < s->ntasks; i++) if (alive & (1 << i)) { if (k-- == 0) { choice = i; break; } }
-  s->trace.push_back(-1 - choice);
+  int choice = -1;
+  if (s->replay && s->replay_pos < s->replay_len) { int c = s->replay[s->replay_pos++]; if (c < 0) c = -1 - c; if (c >= 0 && c < s->ntasks && (alive & (1 << c))) choice = c; }
+  if (choice < 0) { int k = (int)(snext(s) % (uint64_t)cnt); for (int i = 0; i < s->ntasks; i++) if (alive & (1 << i)) { if (k-- == 0) { choice = i; break; } } }
+  strace(s, -1 - choice);
   s->switches++; s->turn = choice; spin_until_turn(s, id);
 }
 }  // namespace sim
